@@ -1,5 +1,6 @@
 /- C12 — every generated filter can be driven through the C++ managed runtime. -/
 import FormakVerif.Properties.C11
+import FormakVerif.Model.Iface
 
 namespace FormakVerif.C12
 open FormakVerif
@@ -32,6 +33,51 @@ theorem tick_eq_byhand {T S R : Type} (A : TimeArith T) (F : Filter T S R) (maxD
   have := C11.cpp_refines A F maxDt st out rs
   have h := congrArg Prod.snd this
   simpa [tickSpec, C11.cppAbs] using h
+
+
+/-! ### the generated interface against what `ManagedFilter.h` demands (all definitions, any sensors) -/
+
+/-- **Every generated filter passes the compatibility check** — for any definition (with or without control, with or without
+calibration, any number of sensors) and any maximum step the C++ configuration accepts. -/
+theorem generated_compatible (d : EkfDef) (maxDt : Rat) (h : Managed.configAccepts maxDt = true) :
+    Managed.compatible (d.iface maxDt) = true := by
+  have h' : (1 : Rat) / 1000000000 ≤ maxDt := by simpa [Managed.configAccepts] using h
+  have : (0 : Rat) < maxDt := by
+    apply Rat.not_le.mp; intro hle
+    exact absurd (Rat.le_trans h' hle) (by decide +kernel)
+  simpa [Managed.compatible, EkfDef.iface] using this
+
+/-- … and a non-positive `max_dt_sec` would fail it (the check is not vacuous) -/
+theorem nonpositive_incompatible (d : EkfDef) (maxDt : Rat) (h : maxDt ≤ 0) : Managed.compatible (d.iface maxDt) = false := by
+  simpa [Managed.compatible, EkfDef.iface] using Rat.not_lt.mpr h
+
+/-- **The calls `ManagedFilter` makes are the calls the generated filter declares**, in all four presence combinations: the
+`if constexpr` branch selected by the `Tag` aliases passes exactly the declared parameter list to `process_model`, and `tick` passes
+exactly the declared list to a stamped reading's `sensor_model`. -/
+theorem calls_match_declarations (d : EkfDef) (maxDt : Rat) :
+    Managed.processCall (d.iface maxDt) = (d.iface maxDt).processArgs ∧
+    Managed.readingCall (d.iface maxDt) = (d.iface maxDt).readingArgs := by
+  unfold Managed.processCall Managed.readingCall EkfDef.iface
+  cases d.Lk.isEmpty <;> cases d.Lc.isEmpty <;> simp [TagTy.constRef]
+
+/-- exactly one constructor overload survives `std::enable_if`, and it takes the calibration exactly when there is one -/
+theorem one_constructor (d : EkfDef) (maxDt : Rat) :
+    Managed.ctorOverloads (d.iface maxDt) =
+      [["double", "const StateAndVariance&"] ++ (if d.Lk.isEmpty then [] else ["const Calibration&"])] := by
+  unfold Managed.ctorOverloads EkfDef.iface
+  cases d.Lk.isEmpty <;> simp [TagTy.constRef]
+
+/-- the `tick` overloads that compile are the ones with a control argument exactly when the definition has control inputs
+(so a model with control inputs cannot be ticked without them), each both with and without a list of readings -/
+theorem tick_overloads (d : EkfDef) (maxDt : Rat) :
+    Managed.tickOverloads (d.iface maxDt) = [(!d.Lc.isEmpty, false), (!d.Lc.isEmpty, true)] := by
+  unfold Managed.tickOverloads EkfDef.iface
+  cases d.Lc.isEmpty <;> simp
+
+/-- one `SensorId` member per distinct sensor key, whatever the number of sensors -/
+theorem sensor_ids_count (d : EkfDef) (maxDt : Rat) :
+    (d.iface maxDt).sensorIds.length = (layout (d.sensors.map (·.key))).length := by
+  simp [EkfDef.iface]
 
 example : calledProcessArity false false = 2 := rfl
 
